@@ -300,9 +300,16 @@ pub fn match_known<'a>(known: &'a [Known], prop: &str, f: &Found) -> Option<&'a 
 // minimiser (delta debugging over the explicit op list)
 
 fn same_failure(prop: &str, cfg: &ExecCfg, ops: &[Op], kind: &str, opname: &str) -> Option<Found> {
-    let out = exec_list(prop, cfg, ops);
-    match out.found {
-        Some(f) if f.viol.kind == kind && f.op == opname => Some(f),
+    // a candidate op list may drive a defective library into a call that does not return: every
+    // re-execution runs on its own thread and is abandoned after 20 s (counts as "does not fail")
+    let (tx, rx) = std::sync::mpsc::channel();
+    let (prop2, cfg2, ops2) = (prop.to_string(), cfg.clone(), ops.to_vec());
+    let _ = std::thread::Builder::new().stack_size(64 << 20).spawn(move || {
+        let out = exec_list(&prop2, &cfg2, &ops2);
+        let _ = tx.send(out.found);
+    });
+    match rx.recv_timeout(Duration::from_secs(20)) {
+        Ok(Some(f)) if f.viol.kind == kind && f.op == opname => Some(f),
         _ => None,
     }
 }
